@@ -6,10 +6,12 @@ carries its own PRNG seeded from ``"<VERIF_SEED>:<prop>:<stream>:<index>"``
 so any case can be re-executed alone from (seed, index).
 """
 import collections
+import contextlib
 import hashlib
 import json
 import random
 import resource
+import signal
 import time
 import traceback
 
@@ -30,6 +32,27 @@ class Discrepancy(Exception):
         self.mechanism = mechanism
         self.what = what
         self.detail = detail or {}
+
+
+class OpTimeout(Exception):
+    """An operation of the code under test exceeded its CPU-time bound."""
+
+
+def _on_timer(signum, frame):
+    raise OpTimeout("CPU-time bound exceeded")
+
+
+@contextlib.contextmanager
+def op_guard(seconds=8.0):
+    """Bound the user CPU time of one call into the code under test
+    (ITIMER_VIRTUAL: counts this process's CPU time only, so a loaded
+    machine cannot trip it)."""
+    signal.signal(signal.SIGVTALRM, _on_timer)
+    signal.setitimer(signal.ITIMER_VIRTUAL, seconds)
+    try:
+        yield
+    finally:
+        signal.setitimer(signal.ITIMER_VIRTUAL, 0)
 
 
 class Case:
@@ -128,6 +151,9 @@ class Ctx:
     def run_case(self, case, fn, default_prop=None):
         """Run fn(case); map Discrepancy / unexpected exceptions to
         violations.  Returns True if the case completed silently."""
+        signal.signal(signal.SIGPROF, _on_timer)
+        signal.setitimer(signal.ITIMER_PROF, self.params.get(
+            "case_cpu_s", 120.0))
         try:
             fn(case)
             return True
@@ -135,6 +161,15 @@ class Ctx:
             self.violation(d.prop, d.mechanism, d.what, case, d.detail)
         except RecursionError:
             raise
+        except OpTimeout as e:
+            self.violation(default_prop or self.prop, "case-timeout",
+                           "case exceeded its CPU-time bound (possible "
+                           "hang): %s" % e, case,
+                           {"traceback": traceback.format_exc()[-3000:]})
+        except MemoryError:
+            self.violation(default_prop or self.prop, "case-memory",
+                           "case exhausted the worker's memory limit",
+                           case, {})
         except Exception as e:  # harness or library blew up unexpectedly
             tb = traceback.format_exc()
             self.violation(
@@ -142,6 +177,8 @@ class Ctx:
                 "unexpected-exception:%s" % type(e).__name__,
                 "unexpected %s: %s" % (type(e).__name__, str(e)[:200]),
                 case, {"traceback": tb[-3000:]})
+        finally:
+            signal.setitimer(signal.ITIMER_PROF, 0)
         return False
 
     # ---- output --------------------------------------------------------
